@@ -89,3 +89,119 @@ def draw(m, meta, trials=500):
                         problems.append({"padding": repr(pad), "animated": anim, "check_size": check_size, "allow_scroll": allow_scroll, "padded_size": (pw, ph),
                                          "rejected": raised, "must_reject": must, "written_before_rejection": len(buf.getvalue())})
     return {"reproduced": bool(problems), "input": "seeded random draws (new API) on the concrete VT model + size-validation table", "observed": problems[:3]}
+
+
+def _gif(n_frames, size=(16, 16)):
+    import io as _io
+    from PIL import Image
+    cols = [(255, 0, 0), (0, 255, 0), (0, 0, 255), (255, 255, 0)]
+    fr = [Image.new("RGB", size, cols[i % 4]) for i in range(n_frames)]
+    buf = _io.BytesIO()
+    if n_frames > 1:
+        fr[0].save(buf, "GIF", save_all=True, append_images=fr[1:], duration=1, loop=0)
+    else:
+        fr[0].save(buf, "PNG")
+    buf.seek(0)
+    return Image.open(buf)
+
+
+class _Tty(io.StringIO):
+    def isatty(self):
+        return True
+
+
+def old_draw(m, meta, trials=300):
+    """old API: real BaseImage.draw (still / animated GIF, finite repeat) on a fake tty; the output interpreted by the concrete VT
+    model from start rows that may force scrolling: last frame inside its padding where the first was drawn, nothing outside the
+    padded box, cursor visible at the start of the line below it"""
+    import tests  # noqa: F401
+    from replay.vt import VT
+    from term_image.image import BlockImage
+    import term_image.image.common as common
+    common.time.sleep = lambda s: None
+    rng = random.Random(6)
+    problems = []
+    for t in range(trials):
+        nfr = rng.choice([1, 2, 3])
+        image = BlockImage(_gif(nfr))
+        h = rng.choice([1, 1, 2, 3])
+        image.set_size(height=h)
+        w, h = image.rendered_size
+        pw, ph = rng.choice([w, w + rng.randint(0, 4)]), rng.choice([h, h, h + rng.randint(0, 3)])
+        ha, va = rng.choice(["<", "|", ">"]), rng.choice(["^", "-", "_"])
+        repeat = rng.choice([1, 2])
+        buf = _Tty()
+        old = sys.stdout
+        sys.stdout = buf
+        try:
+            image.draw(ha, pw, va, ph, repeat=repeat, cached=rng.choice([True, False]))
+        finally:
+            sys.stdout = old
+        out = buf.getvalue()
+        TH = 30
+        r0 = rng.randint(0, TH - 1)
+        vt = VT(width=80, height=TH, row=r0, col=0).feed(out)
+        errs = []
+        box = {(rr, cc) for rr in range(r0, r0 + ph) for cc in range(pw)}
+        outside = {c for c in vt.touched() if c not in box} if hasattr(vt, "touched") else set()
+        if outside:
+            errs.append(("cells written outside the padded box (relative row, col)", sorted((rr - r0, cc) for rr, cc in outside)[:3]))
+        if (vt.row, vt.col) != (r0 + ph, 0):
+            errs.append(("cursor ends at (rows below start, col)", (vt.row - r0, vt.col), "expected", (ph, 0)))
+        if not vt.vis or vt.incomplete:
+            errs.append("cursor hidden / incomplete sequence")
+        if errs:
+            problems.append({"frames": nfr, "repeat": repeat, "render_size": (w, h), "draw": (ha, pw, va, ph), "start_row": r0, "failed": errs[:3]})
+            break
+    return {"reproduced": bool(problems), "input": "seeded random draws (old API) on the concrete VT model", "observed": problems[:2]}
+
+
+def old_draw_wezterm(m, meta):
+    """ITerm2Image animations on WezTerm (cells erased once before the first frame): every padding height / alignment of small
+    GIFs on the concrete VT model - image rows where the padding puts them, nothing touched outside the padded box, cursor on
+    the line below it"""
+    import tests  # noqa: F401
+    from replay.vt import VT
+    from term_image.image import ITerm2Image
+    import term_image.image.common as common
+    common.time.sleep = lambda s: None
+    saved = (ITerm2Image._supported, ITerm2Image._TERM, ITerm2Image._TERM_VERSION)
+    ITerm2Image._supported, ITerm2Image._TERM, ITerm2Image._TERM_VERSION = True, "wezterm", "20230101"
+    problems = []
+    try:
+        for h in (1, 2, 3):
+            for extra in (0, 1, 2, 3):
+                for va in ("^", "-", "_"):
+                    image = ITerm2Image(_gif(2))
+                    image.set_size(height=h)
+                    w, h2 = image.rendered_size
+                    ph = h2 + extra
+                    buf = _Tty()
+                    old = sys.stdout
+                    sys.stdout = buf
+                    try:
+                        image.draw("<", 0, va, ph, repeat=1, method="lines")
+                    finally:
+                        sys.stdout = old
+                    r0 = 12
+                    vt = VT(width=80, height=30, row=r0, col=0).feed(buf.getvalue())
+                    top = {"^": 0, "-": extra // 2, "_": extra}[va]
+                    img_rows = sorted({r - r0 for (r, c) in vt.images})
+                    touched = sorted({r - r0 for (r, c) in vt.touched()})
+                    errs = []
+                    if img_rows != list(range(top, top + h2)):
+                        errs.append(("image rows", img_rows, "expected", list(range(top, top + h2))))
+                    if touched and (touched[0] < 0 or touched[-1] >= ph):
+                        errs.append(("rows touched", (touched[0], touched[-1]), "padded box is rows", (0, ph - 1)))
+                    if (vt.row - r0, vt.col) != (ph, 0):
+                        errs.append(("cursor ends at", (vt.row - r0, vt.col), "expected", (ph, 0)))
+                    if errs:
+                        problems.append({"rendered_size": (w, h2), "pad_height": ph, "v_align": va, "failed": errs})
+                        break
+                if problems:
+                    break
+            if problems:
+                break
+    finally:
+        ITerm2Image._supported, ITerm2Image._TERM, ITerm2Image._TERM_VERSION = saved
+    return {"reproduced": bool(problems), "input": "ITerm2Image.draw() of 2-frame GIFs on a WezTerm terminal, every small height / padding / alignment", "observed": problems[:2]}
